@@ -315,7 +315,15 @@ def rule_pairing(repo, rep):
     site = f"{TW}:TFLiteSerialiser.__init__"
     # reader: clone_and_reshape for conv/depthwise/FC; writer restores src_tensor for every non-ifm input
     po = tr.func("TFLiteSubgraph.parse_operator")
-    rg = [n for n in ast.walk(po) if isinstance(n, ast.If) and norm(n.test) == "op.type.is_depthwise_conv2d_op() or op.type.is_conv2d_op() or op.type == Op.FullyConnected"]
+    # the operator under construction is whatever local the function binds to `Operation(..)`; the texts below are written with `op`
+    _opn = [st_.targets[0].id for st_ in ast.walk(po) if isinstance(st_, ast.Assign) and isinstance(st_.targets[0], ast.Name) and isinstance(st_.value, ast.Call) and call_name(st_.value) == "Operation"]
+    if len(_opn) != 1:
+        raise AnalysisError("parse_operator: the operator variable was not found")
+
+    def ptxt(node_):
+        return re.sub(rf"\b{re.escape(_opn[0])}\b", "op", str(norm(node_)))
+
+    rg = [n for n in ast.walk(po) if isinstance(n, ast.If) and ptxt(n.test) == "op.type.is_depthwise_conv2d_op() or op.type.is_conv2d_op() or op.type == Op.FullyConnected"]
     rep.check(len(rg) == 1 and len(calls_in(rg[0], "clone_and_reshape_tensor")) == 3, "C11-d", f"{TR}:TFLiteSubgraph.parse_operator", "reader clones/reshapes weights and bias of conv / depthwise / FC", "")
     wg = [n for n in ast.walk(init) if isinstance(n, ast.If) and norm(n.test) == "op.type.is_conv2d_op() or op.type.is_depthwise_conv2d_op() or op.type == Op.FullyConnected"]
     ok = len(wg) == 1
@@ -346,7 +354,8 @@ def rule_pairing(repo, rep):
     oc = [s for s in ast.walk(init) if isinstance(s, ast.Assign) and norm(s.targets[0]) == "self.operator_codes"]
     rep.check(len(oc) == 1 and "op.type" in norm(oc[0].value) and "custom_code" in norm(oc[0].value) and "op.version" in norm(oc[0].value), "C11-d", site,
               "operator codes keep (type, custom code, version)", "")
-    rep.check(any(norm(s) == "op.version = version" for s in ast.walk(po) if isinstance(s, ast.Assign)), "C11-d", f"{TR}:TFLiteSubgraph.parse_operator", "reader keeps the operator version", "")
+    _vsrc = {t_.elts[-1].id for st_ in ast.walk(po) if isinstance(st_, ast.Assign) and "operator_codes[" in str(norm(st_.value)) for t_ in st_.targets if isinstance(t_, ast.Tuple) and isinstance(t_.elts[-1], ast.Name)}
+    rep.check(any(isinstance(s, ast.Assign) and ptxt(s.targets[0]) == "op.version" and isinstance(s.value, ast.Name) and s.value.id in _vsrc for s in ast.walk(po)), "C11-d", f"{TR}:TFLiteSubgraph.parse_operator", "reader keeps the operator version", "")
     # operator-code map: the writer registers one OperatorCode per (type, custom code, version) tuple of self.operator_codes and
     # looks the index up again per operator. The map's key has to contain every component that distinguishes two tuples: the
     # type, the custom code for third-party custom operators, and the version (two CPU operators of one type but different
